@@ -11,7 +11,8 @@ P = "Matid.Props.C17."
 THEOREMS = [P + t for t in ("classify2D_cases", "classify_total", "refined_has_region", "crossValidate_mem", "basis_outliers_partition",
                             "repeated_calls_agree", "classifier_config_readonly")] + \
     ["Matid.Props.C09.dimension_in_range"]
-TRUSTED = ["Lean 4 kernel", "axioms: propext, Classical.choice, Quot.sound at most (audited per run)",
+TRUSTED = ["stage models of the finder (SbcEntry, SpanGraph, BestBasis, AdaptiveCell, WithinBasis, ProtoAssemble, ProtoDecision, Region) with their theorems as obligations; tied by recorded-call correspondence in THIS run: the answers of sub-functions modelled elsewhere (get_matches, get_matches_simple, get_positions_within_basis, _find_best_basis inside the span-graph replay) are recorded and handed to the model as oracle data (recorders in harness/sbc_common.py, harness/region_model.py)", "rule translators gen_sbc_rule / gen_proto_rule / gen_region_rule / gen_assemble_rule / gen_dim_rule (AST facts; a harmless refactoring can flip one)",
+           "Lean 4 kernel", "axioms: propext, Classical.choice, Quot.sound at most (audited per run)",
            "hand-written model MatidModel/Classifier.lean tied by (a) the dispatch driven with a patched finder/dimensionality and (b) recorded real classifications replayed through the model",
            "dimensionality (C09) and the finder's regions are inputs of the model; crash-freedom, input-untouched and repeatability are sampled"]
 
